@@ -83,6 +83,7 @@ type wnFile struct {
 	order    []string         // data chunks in protocol order (C17)
 	apiDeleted bool           // deleted through the delete operation (not evicted)
 	partial    bool           // single chunks of it were fetched (it is not a complete known file)
+	members    []nkMember     // non-empty: the file is a directory (tar collection) with these members
 	upEpoch    int            // barrier epoch in which the last local upload of it ran
 }
 
@@ -129,7 +130,13 @@ func (w *wnWorld) uploadOn(n *nkNode, f *wnFile, pin bool) error {
 	w.upMu.Lock()
 	defer w.upMu.Unlock()
 	n.Rec.start()
-	ref, err := n.Upload(f.name, f.content, pin)
+	var ref boson.Address
+	var err error
+	if len(f.members) > 0 {
+		ref, err = n.UploadDir(f.members, pin)
+	} else {
+		ref, err = n.Upload(f.name, f.content, pin)
+	}
 	chunks := n.Rec.stop()
 	if err != nil {
 		return err
@@ -145,6 +152,21 @@ func (w *wnWorld) uploadOn(n *nkNode, f *wnFile, pin bool) error {
 	}
 	w.mu.Unlock()
 	return nil
+}
+
+// fetch downloads a file on node 0: the file itself, or for a directory the
+// member selected by sel. It returns the status, the body and the expected bytes.
+func (w *wnWorld) fetch(f *wnFile, sel int64) (int, []byte, []byte) {
+	if len(f.members) > 0 {
+		if sel < 0 {
+			sel = -sel
+		}
+		m := f.members[int(sel)%len(f.members)]
+		code, body := w.n0.Download(f.ref, m.Name)
+		return code, body, m.Content
+	}
+	code, body := w.n0.Download(f.ref, f.name)
+	return code, body, f.content
 }
 
 // exec runs one operation under a simulated-time watchdog: an operation that
@@ -185,7 +207,7 @@ func (w *wnWorld) exec1(phase int, o gosim.Op) {
 func (w *wnWorld) exec0(phase int, o gosim.Op) {
 	r := w.r
 	switch o.K {
-	case "file":
+	case "file", "dir":
 		// definitions are processed before the run starts
 	case "upload":
 		f := w.file(o.Arg(1))
@@ -239,16 +261,19 @@ func (w *wnWorld) exec0(phase int, o gosim.Op) {
 		f.everCached = true // even a failing download may leave chunks cached under the root
 		f.apiDeleted = false // ... and makes the node track the file again
 		w.mu.Unlock()
-		code, body := w.n0.Download(f.ref, f.name)
+		code, body, want := w.fetch(f, o.Arg(2))
 		r.Logf("cache f=%d -> %d len=%d", f.id, code, len(body))
-		if code == 200 && len(body) < len(f.content) && bytes.Equal(body, f.content[:len(body)]) {
+		if code == 200 && len(body) < len(want) && bytes.Equal(body, want[:len(body)]) {
 			// the link was lost while the body was streamed: a truncated (prefix)
 			// response is all HTTP can do after the status line went out
 			r.Count("download_truncated")
 			code = 0
 		}
-		if code == 200 && !bytes.Equal(body, f.content) {
-			r.Violate("wrong-content", "download of file %d returned %d bytes that differ from the uploaded content (%d bytes)", f.id, len(body), len(f.content))
+		if code == 200 && !bytes.Equal(body, want) {
+			r.Violate("wrong-content", "download of file %d returned %d bytes that differ from the uploaded content (%d bytes)", f.id, len(body), len(want))
+		}
+		if code == 200 && len(f.members) > 1 {
+			r.Count("probe_dir_member_downloaded")
 		}
 		// what the node holds of the file now is the new baseline: the file may have
 		// been evicted and (partly) fetched again since the last successful download
@@ -286,12 +311,12 @@ func (w *wnWorld) exec0(phase int, o gosim.Op) {
 		if !known {
 			return
 		}
-		code, body := w.n0.Download(f.ref, f.name)
+		code, body, want := w.fetch(f, o.Arg(2))
 		r.Logf("read f=%d -> %d len=%d", f.id, code, len(body))
-		if code == 200 && len(body) < len(f.content) && bytes.Equal(body, f.content[:len(body)]) {
+		if code == 200 && len(body) < len(want) && bytes.Equal(body, want[:len(body)]) {
 			code = 0
 		}
-		if code == 200 && !bytes.Equal(body, f.content) {
+		if code == 200 && !bytes.Equal(body, want) {
 			r.Violate("wrong-content", "read of file %d returned different bytes", f.id)
 		}
 	case "get":
@@ -454,6 +479,20 @@ func wnGen(prop string) func(rng *rand.Rand, tier string) *gosim.Plan {
 			}
 			p.Ops = append(p.Ops, gosim.Op{K: "file", A: a})
 		}
+		// C17: in a third of the runs one or two files are directories with 2-3
+		// members (positions in the availability vector run over all members);
+		// downloads then fetch single members
+		dirs := prop == "C17" && rng.Intn(3) == 0
+		if dirs {
+			for f, n := 0, 1+rng.Intn(2); f < n && f < nfiles; f++ {
+				m := 2 + rng.Intn(2)
+				a := []int64{int64(f), int64(m), int64(rng.Intn(2)) * int64(1+rng.Intn(5000))}
+				for i, k := 0, m+rng.Intn(3); i < k; i++ {
+					a = append(a, rng.Int63n(alpha+3))
+				}
+				p.Ops[f] = gosim.Op{K: "dir", A: a}
+			}
+		}
 		p.Params["capacity"] = gosim.Pick(rng, 4, 6, 8, 8, 12, 12, 20)
 		if prop == "C15" || prop == "C17" {
 			p.Params["capacity"] = gosim.Pick(rng, 12, 50, 200)
@@ -511,6 +550,11 @@ func wnGen(prop string) func(rng *rand.Rand, tier string) *gosim.Plan {
 				p.Ops = append(p.Ops, gosim.Op{K: "delete", A: []int64{0, int64(f)}}, gosim.Op{K: "barrier"})
 			}
 			return p
+		}
+		if dirs && rng.Intn(3) > 0 {
+			// a user opens one file of a directory: only that member is fetched,
+			// and the record is checked before anything else happens
+			p.Ops = append(p.Ops, gosim.Op{K: "cache", A: []int64{0, 0, int64(rng.Intn(6))}}, gosim.Op{K: "barrier"})
 		}
 		for ph := 0; ph < nphase; ph++ {
 			if (prop == "C12" || prop == "C13" || prop == "C16") && ph > 0 && rng.Intn(3) == 0 {
@@ -578,7 +622,11 @@ func wnGen(prop string) func(rng *rand.Rand, tier string) *gosim.Plan {
 				case x < 22:
 					p.Ops = append(p.Ops, gosim.Op{K: "upload", A: []int64{cl, f, int64(rng.Intn(3) / 2)}})
 				case x < 47:
-					p.Ops = append(p.Ops, gosim.Op{K: "cache", A: []int64{cl, f}})
+					if dirs {
+						p.Ops = append(p.Ops, gosim.Op{K: "cache", A: []int64{cl, f, int64(rng.Intn(6))}})
+					} else {
+						p.Ops = append(p.Ops, gosim.Op{K: "cache", A: []int64{cl, f}})
+					}
 				case x < 55:
 					if prop == "C17" && x >= 50 {
 						p.Ops = append(p.Ops, gosim.Op{K: "nsget", A: []int64{cl, f, int64(rng.Intn(8)), 1}})
@@ -621,6 +669,33 @@ func wnExec(prop string) func(r *gosim.Run) {
 	return func(r *gosim.Run) {
 		w := &wnWorld{r: r, prop: prop, files: map[int64]*wnFile{}, cap: uint64(r.Plan.P("capacity", 10))}
 		for _, o := range r.Plan.Ops {
+			if o.K == "dir" && len(o.A) >= 3 {
+				// dir [f, m, tail, c1, ..., ck]: directory f with m members; the chunk
+				// list is dealt out to the members in contiguous groups, the tail
+				// bytes go to the last member
+				f := &wnFile{id: o.A[0]}
+				m := int(o.A[1])
+				if m < 1 {
+					m = 1
+				}
+				cs := o.A[3:]
+				for i := 0; i < m; i++ {
+					mem := nkMember{Name: fmt.Sprintf("m%d.bin", i)}
+					lo, hi := i*len(cs)/m, (i+1)*len(cs)/m
+					for _, c := range cs[lo:hi] {
+						mem.Content = append(mem.Content, wnChunkData(c)...)
+					}
+					if i == m-1 && o.A[2] > 0 {
+						mem.Content = append(mem.Content, wnChunkData(1000 + o.A[0])[:o.A[2]%wnChunk]...)
+					}
+					if len(mem.Content) == 0 {
+						mem.Content = []byte{byte(o.A[0]), byte(i)}
+					}
+					f.members = append(f.members, mem)
+				}
+				w.files[f.id] = f
+				continue
+			}
 			if o.K != "file" || len(o.A) < 2 {
 				continue
 			}
